@@ -1,6 +1,7 @@
 //! tvh — the tsrun verification harness. One binary, one subcommand per engine.
 mod common;
 mod run;
+mod modx;
 mod orders;
 mod reuse;
 mod c05;
@@ -25,6 +26,7 @@ fn main() {
         "leak" => run::leak_main(&rest),
         "reuse" => reuse::main(&rest),
         "orders" => orders::main(&rest),
+        "modx" => modx::main(&rest),
         "c05" => c05::main(&rest),
         "c13" => c13::main(&rest),
         "c15" => c15::main(&rest),
